@@ -1,5 +1,10 @@
 // C23: coordination windows are triggered exactly once, in order.
-// Op line:  watch <b1,b2,...>      (one complete block stream per line)
+// Op line:  watch <b1,b2,...>[|<c1,c2,...>|...]   one complete block stream per line; `|` = the block
+//           source CLOSES the channel while the context is still active and would serve the next
+//           segment to a new subscription, should the watcher ask for one. (The unchanged watcher
+//           subscribes once: a closed channel yields zero blocks, which are ignored; later segments
+//           are then never observed. Whatever a watcher does on a closed channel, the property must
+//           hold over everything it was fed.)
 // Obs line: <sorted multiset of coordination blocks for which onWindowFn ran>
 package main
 
@@ -51,7 +56,29 @@ func gen(r *hx.Rng, n int, tier string) []string {
 			}
 			bs = append(bs, cur)
 		}
-		ops = append(ops, "watch "+hx.JoinInts(bs))
+		op := "watch " + hx.JoinInts(bs)
+		if r.Chance(1, 6) && len(bs) > 0 {
+			// the block source closes the channel; a re-subscription would re-emit or regress
+			k := r.Range(1, 2)
+			for s := 0; s < k; s++ {
+				var seg []uint64
+				base := bs[r.Intn(len(bs))]
+				switch r.Intn(3) {
+				case 0: // re-emit from an already seen window start
+					seg = append(seg, (base/freq)*freq, (base/freq)*freq+1, (base/freq+1)*freq)
+				case 1: // regress below and walk over it again
+					if base >= freq {
+						seg = append(seg, (base/freq)*freq-1, (base/freq)*freq, (base/freq)*freq+1)
+					} else {
+						seg = append(seg, freq, freq+1)
+					}
+				default:
+					seg = append(seg, uint64(r.Intn(int(freq)*6)), (base/freq+2)*freq)
+				}
+				op += "|" + hx.JoinInts(seg)
+			}
+		}
+		ops = append(ops, op)
 	}
 	return ops
 }
@@ -61,17 +88,27 @@ func exec(op string) (string, string) {
 	if len(f) != 2 || f[0] != "watch" {
 		return "bad-op", "bad"
 	}
-	blocks := hx.ParseU64s(f[1])
+	var segs [][]uint64
+	var blocks []uint64
+	for _, sg := range strings.Split(f[1], "|") {
+		b := hx.ParseU64s(sg)
+		segs = append(segs, b)
+		blocks = append(blocks, b...)
+	}
 	base := runtime.NumGoroutine()
 	ctx, cancel := context.WithCancel(context.Background())
-	ch := make(chan uint64)
+	subscribed := make(chan chan uint64, 8)
 	var mu sync.Mutex
 	var got []uint64
 	badIndex := false
 	done := make(chan struct{})
 	go func() {
 		tbtc.VerifWatchCoordinationWindows(ctx,
-			func(context.Context) <-chan uint64 { return ch },
+			func(context.Context) <-chan uint64 {
+				c := make(chan uint64)
+				subscribed <- c
+				return c
+			},
 			func(b uint64, idx uint64) {
 				mu.Lock()
 				got = append(got, b)
@@ -82,10 +119,34 @@ func exec(op string) (string, string) {
 			})
 		close(done)
 	}()
-	for _, b := range blocks {
-		ch <- b
+	resub := 0
+	for i, seg := range segs {
+		var ch chan uint64
+		select {
+		case ch = <-subscribed:
+		case <-time.After(func() time.Duration {
+			if i == 0 {
+				return 10 * time.Second
+			}
+			return 30 * time.Millisecond // a watcher that does not re-subscribe never asks again
+		}()):
+		}
+		if ch == nil {
+			break
+		}
+		if i > 0 {
+			resub++
+		}
+		for _, b := range seg {
+			ch <- b
+		}
+		if i == len(segs)-1 {
+			ch <- 1 // not a window start: makes sure the last real block was fully handled
+		} else {
+			ch <- 1
+			close(ch) // the block source drops the subscription while the context is active
+		}
 	}
-	ch <- 1 // not a window start: makes sure the last real block was fully handled
 	cancel()
 	<-done
 	deadline := time.Now().Add(5 * time.Second)
@@ -100,6 +161,9 @@ func exec(op string) (string, string) {
 		obs += " bad-index"
 	}
 	tag := "none"
+	if len(segs) > 1 {
+		defer func() {}()
+	}
 	if len(got) > 0 {
 		tag = "triggered"
 		// stream had a duplicate or regression of a window start?
@@ -117,6 +181,12 @@ func exec(op string) (string, string) {
 					mx = b
 				}
 			}
+		}
+	}
+	if len(segs) > 1 {
+		tag += "+closed"
+		if resub > 0 {
+			tag += "+resubscribed"
 		}
 	}
 	return obs, tag
